@@ -136,7 +136,7 @@ theorem leakOK_after_normal (cfg : Cfg S) (analyze : α → Trace S) (init : Sta
   rw [hst, h1, h2, hi.1, hi.2]
   simp
 
-/-- H5 is not needed once `clear()` also runs at the start of `checkInternal` (proposed repair) -/
+/-- H5 always holds in the code of record: `clear()` runs at the start of `checkInternal` (8f62378) -/
 theorem leakOK_repaired (cfg : Cfg S) (c a : State S) (evs : List (Ev S)) (h : cfg.clearAtStart = true) :
     leakOK cfg c a evs = true := by
   simp [leakOK, h]
@@ -194,7 +194,11 @@ private def fileSuppr (id file : String) : Suppr :=
 private def macroSuppr (id file mname : String) : Suppr :=
   ⟨id.toList, file.toList, 2, [], .macro, NO_LINE, NO_LINE, false, mname.toList, true⟩
 
-private def cfg0 : Cfg Suppr := realCfg false false false []
+/-- the code of record: `PathMatch` file test for inline suppressions, `clear()` at the start of `checkInternal` (8f62378) -/
+private def cfg0 : Cfg Suppr := realCfg false true false []
+
+/-- the code before 8f62378: the duplicate filters were cleared on the normal exit only -/
+private def cfgOld : Cfg Suppr := realCfg false false false []
 
 /-- analyses as functions from a file name -/
 private def analyzeA : String → Trace Suppr
@@ -218,8 +222,9 @@ theorem file_findings_independent_counterexample_foreign_suppression :
 example : foreignOK cfg0 (stateAfter cfg0 analyzeA (initState []) ["a.c"]).supprs [] [] (analyzeA "sub/a.c").evs = false := by
   decide
 
-/-- with the repaired file test (an inline suppression names exactly its file) the same run is independent -/
-example : Indep (realCfg true false false []) (stateAfter (realCfg true false false []) analyzeA (initState []) ["a.c"])
+/-- with an exact file test for inline suppressions the same run would be independent (not adopted: it breaks `-rp` with
+    several base paths, where the directory-boundary rule of `PathMatch` is needed) -/
+example : Indep (realCfg true true false []) (stateAfter (realCfg true true false []) analyzeA (initState []) ["a.c"])
     (initState []) (analyzeA "sub/a.c") = true := by decide
 
 private def divMap (file : String) (line : Int) : MacroMap := [((file.toList, line), ["DIV".toList])]
@@ -243,17 +248,20 @@ private def analyzeL : String → Trace Suppr
   | "b.c" => ⟨[.report (mkF "zerodiv" "h.h" 3 "h.h:3:zerodiv")], false⟩
   | _ => ⟨[], false⟩
 
-/-- **F17d** (H5 at the excluded point): after `a.c` was taken from the build dir the duplicate filter still holds
-    its texts; the header finding of the freshly analysed `b.c` is neither forwarded nor written to `b.c`'s
-    analyzer information -/
-theorem file_findings_independent_counterexample_leaked_filter :
-    ¬ ((findingsOfLast (runSingle cfg0 analyzeL (initState []) (["a.c"] ++ ["b.c"]))).map FileResult.nonWP =
-       (findingsOfLast (runSingle cfg0 analyzeL (initState []) ["b.c"])).map FileResult.nonWP) := by
+/-- **F17d**, repaired by 8f62378 (kept as regression witness; H5 at the excluded point): in the code before the repair,
+    after `a.c` was taken from the build dir the duplicate filter still held its texts; the header finding of the freshly
+    analysed `b.c` was neither forwarded nor written to `b.c`'s analyzer information -/
+theorem file_findings_independent_counterexample_leaked_filter_before_repair :
+    ¬ ((findingsOfLast (runSingle cfgOld analyzeL (initState []) (["a.c"] ++ ["b.c"]))).map FileResult.nonWP =
+       (findingsOfLast (runSingle cfgOld analyzeL (initState []) ["b.c"])).map FileResult.nonWP) := by
   decide
 
-/-- the repaired variant (`clear()` at the start of `checkInternal`) is independent on the same run -/
-example : Indep (realCfg false true false []) (stateAfter (realCfg false true false []) analyzeL (initState []) ["a.c"])
-    (initState []) (analyzeL "b.c") = true := by decide
+/-- the code of record is independent on the same run -/
+theorem leaked_filter_repaired :
+    Indep cfg0 (stateAfter cfg0 analyzeL (initState []) ["a.c"]) (initState []) (analyzeL "b.c") = true ∧
+    (findingsOfLast (runSingle cfg0 analyzeL (initState []) (["a.c"] ++ ["b.c"]))).map FileResult.nonWP =
+      (findingsOfLast (runSingle cfg0 analyzeL (initState []) ["b.c"])).map FileResult.nonWP := by
+  decide
 
 /-- `b.c` replayed from the build dir (no `setLocationMacros`), after `a.c` whose last configuration used `DIV`
     on the same header line -/
